@@ -11,6 +11,22 @@ CONNECT = "01200000cfd750831af1ff518263cf2f00b95d8749c87a3f89f058d360ea4567b13f"
 GET = "010d0000d1d750831af1ff518263cf"
 PEER_SETTINGS = "00040e0801ab603742013301ab60374301"   # ec=1, wt=1, datagram=1, max sessions=1
 U = 2**64 - 1    # `cw<sid>:U` = unlimited write credit
+BIG_IDS = [2**32, 2**40 + 4, 2**62 - 4]      # session / stream ids that do not fit 32 bits (8-byte varints)
+OPEN_IDS = [0, 4, 64, 2**14, 2**30] + BIG_IDS    # session ids handed to open_bi / open_uni explicitly
+
+
+def first_bidi(connect):
+    """the first client bidi stream id used after the CONNECT stream (opening ORDER is what the transport goes by)"""
+    return connect + 4 if connect + 4 * 256 < 2**62 else 4
+
+
+def flags(rng):
+    """the server's own extended-CONNECT / datagram settings: WebTransportSession::accept only warns about them"""
+    return "ec=%d,dg=%d" % ((1, 1) if rng.random() < 0.7 else (rng.randrange(2), rng.randrange(2)))
+
+
+def vneed(v):
+    return 0 if v < 64 else 1 if v < 2**14 else 2 if v < 2**30 else 3
 
 
 class Judge:
@@ -60,7 +76,15 @@ class C19(Prop):
                   "that id, for every id incl. multi-byte varints); an incoming bidi stream's header is decoded by the frame layer "
                   "to exactly the session id the peer wrote, consuming exactly the header; for every chunking the bytes obtainable "
                   "after the header are exactly the bytes that follow it (corollary of the C02 invariant / C04 type resolution); "
-                  "uni streams are surfaced iff the extension is enabled; reading through AsyncRead::poll_read (futures and tokio) "
+                  "the gate proved over the running model: with the extension disabled no accept_uni ever surfaces a stream and "
+                  "nothing is ever pushed on wt_uni_streams, whatever arrives in whatever interleaving (runAccepts false), and a "
+                  "surfaced stream has resolved to the WebTransport uni type; LIVENESS of the bidi header: for every cutting of "
+                  "header ++ payload (any encoding of the two varints, Pending anywhere, nothing behind FIN / RESET) re-polling "
+                  "poll_next ends with the WebTransport frame of that session - never Pending with the script used up, never an "
+                  "error - and then buffer ++ future = payload (C19_bidi_header_is_answered / _then_payload); the uni theorems "
+                  "hold for every header the RFC parser reads as type 0x54 + session id (non-minimal varints); the 0x41 signal is "
+                  "answered only for the very first bytes unless frames of unknown type precede it (D-19b: partial theorem + "
+                  "decide witness of the negation); reading through AsyncRead::poll_read (futures and tokio) "
                   "with EVERY sequence of positive caller buffer sizes hands out exactly those bytes, each once and in order, every "
                   "call at least one byte and at most its buffer, Ok(0) only behind the last byte (induction over the size list, "
                   "over the BufList::take_chunk(limit) model); for every session id, acceptance pattern of the transport and sequence "
@@ -77,8 +101,13 @@ class C19(Prop):
                   "send_data/poll_ready under write credit granted a few bytes at a time, poll_finish/poll_close/poll_shutdown, "
                   "reset/stop_sending, DatagramSender/DatagramReader); the per-call byte counts are compared with the model, the spec "
                   "half of the driver has no opinion on them")
-    rule = ("CONNECT on stream ids 0,4,8,…,256,16384,65536,2^30 (all varint forms), session accepted first or after "
-            "other requests, payloads cut at every offset around the header/payload boundary (header and payload in one chunk, "
+    rule = ("CONNECT on stream ids 0,4,8,…,256,16384,65536,2^30,2^32,2^40+4,2^62-4 (all varint forms), session accepted first "
+            "or after other requests (GET on 0 + CONNECT on 4 included), explicit session ids 0…2^62-4 (incl. 2^32, 2^40+4, 2^62-4) "
+            "on streams the server opens, the server's own ec / dg settings on or off, open_bi / open_uni waiting for stream "
+            "credit (uc= / bc= + gu / gb), the RETURN direction of server-opened bidi streams (bytes that look like headers "
+            "or frames included), frames of unknown type in front of the 0x41 signal (complete / cut off), bidi streams opened "
+            "before conn.WT, a request arriving through accept_bi, 0x41 / 0x54 in every varint form up to 8 bytes, up to 12 uni "
+            "streams buffered together, payloads cut at every offset around the header/payload boundary (header and payload in one chunk, "
             "cuts inside either varint), extension enabled or not, uni and bidi, both directions, non-minimal varints in peer "
             "headers; reads: poll_data, futures poll_read, tokio poll_read, mixed on one stream, before/after split, buffer sizes 1 "
             "… larger than any chunk (cycling lists), data/FIN/RESET arriving before the accept, before the read or while it waits; "
@@ -99,7 +128,14 @@ class C19(Prop):
                    "a stream that ends inside its WebTransport header: uni = never surfaced; bidi = accept_bi answers an error or None, "
                    "never a stream; after an accept answered a connection error every later accept answers an error; whether and with "
                    "which code the connection is then closed is C04's / C06's subject (the closed=[..] token may be absent)",
-                   "requests and non-WebTransport frames that come in through accept_bi are C03's subject (not generated here)",
+                   "a request that comes in through accept_bi (AcceptedBi::Request) must be answered as a request on that stream or "
+                   "with an error, never as a WebTransport stream; what the request API does with it is C03's subject",
+                   "an accept may be left waiting at the end of a line only if the RFC 9000 / RFC 9114 parsers (no model code) find no "
+                   "complete 0x41 / 0x54 header on a stream it could surface: the judge refuses conn.ab=pending / conn.au=pending "
+                   "otherwise, also when model and implementation agree on the stall",
+                   "R-19a / D-19b: the 0x41 signal behind frames of unknown type must be refused (draft-ietf-webtrans-http3 4.2: only "
+                   "the very first bytes; H3_FRAME_ERROR); h3 surfaces the stream: known finding, verdict KNOWN:D-19b only when the "
+                   "session id and the payload are those behind that 0x41 and nothing else on the line departs",
                    "transport chunks are non-empty and FIN / RESET are sticky (SimQuic; R-T)",
                    "a datagram error surfaces as a connection close at the next accept_bi / accept_uni of the session"]
 
@@ -141,13 +177,23 @@ class C19(Prop):
             raise RuntimeError("h3drv (judge) failed rc=%s out=%d/%d %s" % (rc, len(out), len(ask), err[-400:]))
         return [o.strip() for o in out]
 
+    def finding_applies(self, line, impl, model, spec, finding):
+        """a listed finding waives a line only if the judge found NOTHING else wrong with it: its verdict is
+        `KNOWN:<tags>` (every departure is the listed symptom of a recorded finding, the rest of the line - session
+        ids, payloads, wire bytes - is as demanded) and names this finding"""
+        v = impl.split(" ", 1)[0]
+        return v.startswith("KNOWN:") and finding.get("key", "")[5:] in v[6:].split(",")
+
     def observables(self, line, impl):
         trace, summ = impl.split(" | ", 1)
         out = []
         shown = set()
         for t in trace.split():
             if re.match(r"^(conn\.(WT|sid|ob|ou|ab|au|dgs|dgr)|w\d+s?\.(wr|ra|rf|rt|rff|rtf|sp|sd|wf|wt|fi|cl|sh|rst|ss))=", t):
-                out.append(t)
+                # a request that came in through accept_bi (`AcceptedBi::Request`): that it is a request, and on which
+                # stream; what the request API makes of it is C03's subject
+                mr = re.match(r"^(conn\.ab=req:\d+):", t)
+                out.append(mr.group(1) if mr else t)
             m = re.match(r"^conn\.(ab=bidi|au=uni):session=\d+:stream=(\d+)$", t)
             if m:
                 shown.add(int(m.group(2)))
@@ -182,8 +228,22 @@ class C19(Prop):
         surfaced = [int(x) for x in re.findall(r"conn\.au=uni:session=\d+:stream=(\d+)", trace0)]
         buf = ""
         if len(surfaced) >= 2:
-            buf = " uni-surfaced=%d order=%s" % (min(len(surfaced), 4), "opening" if surfaced == sorted(surfaced) else
+            n = len(surfaced)
+            buf = " uni-surfaced=%s order=%s" % (n if n <= 4 else "5-7" if n < 8 else "8+", "opening" if surfaced == sorted(surfaced) else
                                                   "reverse" if surfaced == sorted(surfaced, reverse=True) else "mixed")
+        if re.search(r"conn\.ab=req:", trace0):
+            buf += " request-through-accept_bi"
+        for m in re.finditer(r"conn\.ab=bidi:session=\d+:stream=(\d+)", trace0):
+            data = "".join(o.split(":", 1)[1] for o in ops if o.startswith("s%s:" % m.group(1)))
+            if data:
+                b0 = int(data[:2], 16)
+                n = 1 << (b0 >> 6)
+                ty = int(data[:2 * n], 16) & ((1 << (8 * n - 2)) - 1) if len(data) >= 2 * n else 0x41
+                if ty != 0x41:
+                    buf += " signal-behind-unknown-frames(D-19b)"
+                    break
+        if re.search(r"\bconn\.ob\b", line) and re.search(r" s\d*[159]:", line):
+            buf += " return-direction"
         if "H3_FRAME_ERROR" in trace0:
             buf += " header-truncated"
         elif re.search(r"conn\.ab=(none|err:rterm)", trace0):
@@ -245,14 +305,14 @@ class C19(Prop):
 
     def one_case_basic(self, rng):
         wt = rng.random() < 0.85
-        cfg = "g0,wt=%d,ec=1,dg=1,seed=%d" % (1 if wt else 0, rng.randrange(0, 1000))
-        connect = rng.choice([0, 4, 8, 12, 60, 64, 256, 16380, 16384, 65536, 2**30, 2**30 + 4])
+        cfg = "g0,wt=%d,%s,seed=%d" % (1 if wt else 0, flags(rng), rng.randrange(0, 1000))
+        connect = rng.choice([0, 4, 8, 12, 60, 64, 256, 16380, 16384, 65536, 2**30, 2**30 + 4] + BIG_IDS)
         ops = ["o2", "s2:" + PEER_SETTINGS]
-        if rng.random() < 0.4 and connect >= 8:
-            # an ordinary request first
+        if rng.random() < 0.4 and connect >= 4:
+            # an ordinary request first (GET on stream 0, CONNECT on stream 4 included)
             ops += ["o0", "s0:" + GET, "f0", "conn.A", "q0.res", "q0.sr:200", "q0.fi"]
         ops += ["o%d" % connect, "s%d:%s" % (connect, CONNECT), "conn.WT", "conn.sid"]
-        used_b = connect + 4
+        used_b = first_bidi(connect)
         used_u = 6
         if wt and rng.random() < 0.3:
             # several incoming streams outstanding before the first accept
@@ -263,14 +323,14 @@ class C19(Prop):
         for _ in range(rng.randrange(1, 5)):
             k = rng.random()
             if k < 0.25:
-                ops.append("conn.ob" if rng.random() < 0.7 else "conn.ob:%d" % rng.choice([0, 4, 64, 2**14]))
+                ops.append("conn.ob" if rng.random() < 0.6 else "conn.ob:%d" % rng.choice(OPEN_IDS))
             elif k < 0.5:
-                ops.append("conn.ou")
+                ops.append("conn.ou" if rng.random() < 0.6 else "conn.ou:%d" % rng.choice(OPEN_IDS))
             elif k < 0.75:
-                sess = connect if rng.random() < 0.8 else rng.choice([0, 4, 100, 2**20])
+                sess = connect if rng.random() < 0.8 else rng.choice([0, 4, 100, 2**20] + BIG_IDS)
                 form = rng.choice([None, None, 1, 2, 3])
-                need = 0 if sess < 64 else 1 if sess < 2**14 else 2 if sess < 2**30 else 3
-                hdr = varint(0x41, rng.choice([1, 1, 2])) + varint(sess, max(form or 0, need))
+                need = vneed(sess)
+                hdr = varint(0x41, rng.choice([1, 1, 2, 3])) + varint(sess, max(form or 0, need))
                 payload = [rng.getrandbits(8) for _ in range(rng.choice([0, 1, 2, 5, 30]))]
                 b = used_b
                 used_b += 4
@@ -281,8 +341,8 @@ class C19(Prop):
                 else:
                     ops += ["f%d" % b, "conn.ab", "w%d.ra" % b]
             else:
-                sess = connect if rng.random() < 0.8 else rng.choice([0, 4, 100, 2**20])
-                need = 0 if sess < 64 else 1 if sess < 2**14 else 2 if sess < 2**30 else 3
+                sess = connect if rng.random() < 0.8 else rng.choice([0, 4, 100, 2**20] + BIG_IDS)
+                need = vneed(sess)
                 hdr = varint(0x54, rng.choice([1, 1, 2, 3])) + varint(sess, max(rng.choice([0, 0, 1, 2, 3]), need))
                 payload = [rng.getrandbits(8) for _ in range(rng.choice([0, 1, 2, 5, 30]))]
                 u = used_u
@@ -304,7 +364,7 @@ class C19(Prop):
             if op.startswith("conn.ob"):
                 final.append("w%d.wr:%s" % (nb, hx([rng.getrandbits(8) for _ in range(rng.choice([1, 3, 10]))])))
                 nb += 4
-            if op == "conn.ou":
+            if op.startswith("conn.ou"):
                 final.append("w%d.wr:%s" % (nu, hx([rng.getrandbits(8) for _ in range(rng.choice([1, 3, 10]))])))
                 nu += 4
         if wt or "conn.au" not in ops:
@@ -315,22 +375,23 @@ class C19(Prop):
     # ------------------------------------------------------------------ several streams outstanding before an accept
 
     def wt_header(self, rng, bidi, sess):
-        need = 0 if sess < 64 else 1 if sess < 2**14 else 2 if sess < 2**30 else 3
+        need = vneed(sess)
         if bidi:
-            return varint(0x41, rng.choice([1, 1, 2])) + varint(sess, max(rng.choice([0, 0, 1, 2, 3]), need))
+            return varint(0x41, rng.choice([1, 1, 2, 3])) + varint(sess, max(rng.choice([0, 0, 1, 2, 3]), need))
         return varint(0x54, rng.choice([1, 1, 2, 3])) + varint(sess, max(rng.choice([0, 0, 1, 2, 3]), need))
 
-    def burst(self, rng, connect, used_u, used_b, wt, allow_trunc=True):
+    def burst(self, rng, connect, used_u, used_b, wt, allow_trunc=True, many=False):
         """2-4 WebTransport uni streams (and 0-2 bidi streams) opened by the peer and outstanding at the same time:
         different payloads, session ids that are / are not the session's, different chunkings, headers complete or
         not when the first accept runs, some finished, some reset, some left open, one now and then abandoned inside
         its header.  Returns (events up to the accepts, accept calls, reads / late events, used_u, used_b)."""
         streams = []     # (sid, bidi, events before, events later)
-        nuni = rng.choice([2, 2, 3, 3, 4])
+        # `many`: up to 12 uni streams buffered together (well beyond any small fixed bound on `wt_uni_streams`)
+        nuni = rng.choice([2, 2, 3, 3, 4]) if not many else rng.choice([5, 7, 8, 9, 10, 12])
         nbidi = rng.choice([0, 0, 1, 1, 2])
         kinds = [False] * nuni + [True] * nbidi
         rng.shuffle(kinds)
-        sessions = [connect, connect, 0, 4, 8, 100, 2**14, 2**20, 2**30 + 4, 2**40]
+        sessions = [connect, connect, 0, 4, 8, 100, 2**14, 2**20, 2**30 + 4, 2**40] + BIG_IDS
         marks = list(range(0xa0, 0xb0))
         rng.shuffle(marks)
         for n, bidi in enumerate(kinds):
@@ -342,7 +403,7 @@ class C19(Prop):
                 used_u += 4
             sess = rng.choice(sessions)
             hdr = self.wt_header(rng, bidi, sess)
-            plen = rng.choice([0, 1, 1, 2, 5, 9, 30])
+            plen = rng.choice([0, 1, 1, 2, 5, 9, 30]) if not many else rng.choice([1, 1, 2, 3])
             # payloads that tell the streams apart: the first byte is a mark of the stream
             payload = ([marks[n]] + [rng.getrandbits(8) for _ in range(plen - 1)]) if plen else []
             if allow_trunc and rng.random() < 0.12:
@@ -358,7 +419,7 @@ class C19(Prop):
             end = rng.random()
             endop = ["f%d" % sid] if end < 0.5 else ["r%d:%d" % (sid, rng.choice([0, 9, 2**20]))] if end < 0.62 else []
             ev = ["o%d" % sid] + chunks + endop
-            r = rng.random()
+            r = rng.random() if not many else rng.random() * 0.5
             if r < 0.45:
                 cut = len(ev)                                   # everything is there before the first accept
             elif r < 0.8:
@@ -400,17 +461,22 @@ class C19(Prop):
     def one_case_buffered(self, rng):
         """the session, then a burst of incoming streams that are outstanding together; the accepts; the reads"""
         wt = rng.random() < 0.93
-        cfg = "g0,wt=%d,ec=1,dg=1,seed=%d" % (1 if wt else 0, rng.randrange(0, 1000))
-        connect = rng.choice([0, 4, 8, 12, 60, 64, 256, 16384, 2**30])
+        cfg = "g0,wt=%d,%s,seed=%d" % (1 if wt else 0, flags(rng), rng.randrange(0, 1000))
+        connect = rng.choice([0, 4, 8, 12, 60, 64, 256, 16384, 2**30] + BIG_IDS)
         ops = ["o2", "s2:" + PEER_SETTINGS]
-        if rng.random() < 0.25 and connect >= 8:
+        if rng.random() < 0.25 and connect >= 4:
             ops += ["o0", "s0:" + GET, "f0", "conn.A", "q0.res", "q0.sr:200", "q0.fi"]
-        pre, accepts, late, reads, used_u, used_b = self.burst(rng, connect, 6, connect + 4, wt)
+        pre, accepts, late, reads, used_u, used_b = self.burst(rng, connect, 6, first_bidi(connect), wt,
+                                                               many=rng.random() < 0.15)
         head = ["o%d" % connect, "s%d:%s" % (connect, CONNECT), "conn.WT", "conn.sid"]
-        early = rng.random() < 0.2
+        early = rng.random() < 0.3
         if early:
-            # uni streams that arrive before the session exists wait in `wt_uni_streams` too
-            uni_pre = [o for o in pre if int(re.match(r"^[osfr](\d+)", o).group(1)) % 4 == 2]
+            # uni streams that arrive before the session exists wait in `wt_uni_streams` too; bidi streams opened
+            # before `conn.WT` (behind the CONNECT stream) wait in the transport - half of the time they go first too
+            both = rng.random() < 0.5
+            ops += head[:2]
+            head = head[2:]
+            uni_pre = [o for o in pre if both or int(re.match(r"^[osfr](\d+)", o).group(1)) % 4 == 2]
             rest = [o for o in pre if o not in uni_pre]
             k = rng.randrange(1, len(uni_pre) + 1)
             ops += uni_pre[:k] + head + self.merge(rng, uni_pre[k:], rest)
@@ -448,8 +514,8 @@ class C19(Prop):
                     hdr = self.wt_header(rng, bidi, sess)
                     for k in range(0, len(hdr)):
                         for endk in ("f", "r"):
-                            cfg = "g0,wt=1,ec=1,dg=1,seed=%d" % rng.randrange(0, 1000)
-                            connect = rng.choice([0, 4, 64, 16384])
+                            cfg = "g0,wt=1,%s,seed=%d" % (flags(rng), rng.randrange(0, 1000))
+                            connect = rng.choice([0, 4, 64, 16384, 2**32, 2**40 + 4])
                             sid = connect + 4 if bidi else 6
                             ops = ["o2", "s2:" + PEER_SETTINGS, "o%d" % connect, "s%d:%s" % (connect, CONNECT), "conn.WT", "conn.sid"]
                             # a stream accepted before, still readable afterwards
@@ -591,10 +657,10 @@ class C19(Prop):
 
     def incoming(self, rng, sid, bidi, connect, limited_cfg):
         """a WebTransport stream opened by the peer: (ops up to and including the accept, thread of later ops)"""
-        sess = connect if rng.random() < 0.8 else rng.choice([0, 4, 100, 2**20])
-        need = 0 if sess < 64 else 1 if sess < 2**14 else 2 if sess < 2**30 else 3
+        sess = connect if rng.random() < 0.8 else rng.choice([0, 4, 100, 2**20] + BIG_IDS)
+        need = vneed(sess)
         if bidi:
-            hdr = varint(0x41, rng.choice([1, 1, 2])) + varint(sess, max(rng.choice([0, 0, 1, 2, 3]), need))
+            hdr = varint(0x41, rng.choice([1, 1, 2, 3])) + varint(sess, max(rng.choice([0, 0, 1, 2, 3]), need))
         else:
             hdr = varint(0x54, rng.choice([1, 1, 2, 3])) + varint(sess, max(rng.choice([0, 0, 1, 2, 3]), need))
         payload = [rng.getrandbits(8) for _ in range(rng.choice([0, 1, 2, 5, 9, 30]))]
@@ -642,6 +708,134 @@ class C19(Prop):
                     cmds = self.merge(rng, cmds, w)
         thread = self.merge(rng, self.merge(rng, later, cmds), wthread)
         return pre, thread
+
+    def returning(self, rng, sid, task=None):
+        """what the peer sends back on a bidi stream the server opened (ids 1, 5, 9, ...), and the reads of it:
+        bytes that LOOK like a WebTransport header or an HTTP/3 frame must come through as they are"""
+        task = task or "w%d" % sid
+        kind = rng.random()
+        if kind < 0.25:
+            data = varint(0x41, rng.choice([1, 2])) + varint(rng.choice([0, 4, 2**32])) + [rng.getrandbits(8) for _ in range(3)]
+        elif kind < 0.4:
+            data = [0x00, 0x02, 0xaa, 0xbb, 0x21, 0x00]
+        else:
+            data = [rng.getrandbits(8) for _ in range(rng.choice([0, 1, 2, 5, 9, 30]))]
+        chunks = self.cuts(sid, data, rng.choice([1, 2, 3]), rng) if data else []
+        maxchunk = max([(len(c) - len("s%d:" % sid)) // 2 for c in chunks] + [1])
+        end = rng.random()
+        endop = ["f%d" % sid] if end < 0.75 else ["r%d:%d" % (sid, rng.choice([0, 9, 2**20]))] if end < 0.92 else []
+        reads = []
+        plan = rng.random()
+        if plan >= 0.5:
+            reads.append(self.read_op(rng, maxchunk, rng.randrange(1, 4)))
+        reads.append(self.read_op(rng, maxchunk))
+        return self.merge(rng, chunks + endop, ["%s.%s" % (task, r) for r in reads])
+
+    def unknown_frames(self, rng):
+        """one or two complete frames of types a receiver has to ignore (RFC 9114 7.2.8 / 9)"""
+        out = []
+        for _ in range(rng.choice([1, 1, 2])):
+            ty = rng.choice([0x21, 0x21, 0x40, 0x1f * 7 + 0x21, 0x1f * 1000 + 0x21, 0x42, 0x2a2a, 2**32 + 7])
+            n = rng.choice([0, 0, 1, 3, 70])
+            out += varint(ty, max(vneed(ty), rng.choice([0, 0, 1]))) + varint(n, max(vneed(n), rng.choice([0, 0, 1]))) + \
+                [rng.getrandbits(8) for _ in range(n)]
+        return out
+
+    def class_cases(self, rng, reps):
+        """input classes the random generators reach rarely or not at all, each in every arrangement that matters:
+        (a) frames of unknown type in front of the 0x41 signal (D-19b / R-19a), complete or cut off;
+        (b) a WebTransport bidi stream opened BEFORE `conn.WT` (behind the CONNECT stream; a GET in front or not);
+        (c) the return direction of bidi streams the server opened; session ids beyond 2^32 on opened streams;
+        (d) a request arriving through accept_bi; GET on 0 + CONNECT on 4; 0x41 as an 8-byte varint;
+            8..12 uni streams buffered; open_bi / open_uni waiting for stream credit"""
+        L = []
+        pool = [0, 4, 8, 64, 16384, 2**30] + BIG_IDS
+        for _ in range(reps):
+            for connect in pool:
+                seed = rng.randrange(0, 1000)
+                cfg = "g0,wt=1,%s,seed=%d" % (flags(rng), seed)
+                head = ["o2", "s2:" + PEER_SETTINGS]
+                get_first = connect >= 4 and rng.random() < 0.5
+                if get_first:
+                    head += ["o0", "s0:" + GET, "f0", "conn.A", "q0.res", "q0.sr:200", "q0.fi"]
+                head += ["o%d" % connect, "s%d:%s" % (connect, CONNECT)]
+                b = first_bidi(connect)
+                pay = [0xa0 + rng.randrange(16)] + [rng.getrandbits(8) for _ in range(rng.choice([0, 1, 5]))]
+                sess = rng.choice([connect, connect, 0, 4, 2**40 + 4])
+                # (a) unknown frames, then the signal
+                for trunc in (False, False, True):
+                    pre = self.unknown_frames(rng)
+                    hdr = self.wt_header(rng, True, sess)
+                    if trunc:
+                        data = (pre + hdr + pay)[:rng.randrange(1, len(pre) + len(hdr))]
+                        endop = ["f%d" % b] if rng.random() < 0.7 else []
+                    else:
+                        data = pre + hdr + pay
+                        endop = rng.choice([["f%d" % b], ["f%d" % b], [], ["r%d:7" % b]])
+                    ev = ["o%d" % b] + self.cuts(b, data, len(pre), rng)
+                    k = rng.random()
+                    if k < 0.4:
+                        ops = ev + endop + ["conn.ab"]
+                    elif k < 0.8:
+                        ops = ev + ["conn.ab"] + endop
+                    else:
+                        j = rng.randrange(1, len(ev) + 1)
+                        ops = ev[:j] + ["conn.ab"] + ev[j:] + endop
+                    ops += ["w%d.%s" % (b, self.read_op(rng, 8))]
+                    # a proper stream behind it
+                    ops += ["o%d" % (b + 4), "s%d:%s" % (b + 4, hx(self.wt_header(rng, True, connect) + [0xcc])), "f%d" % (b + 4),
+                            "conn.ab", "w%d.ra" % (b + 4)]
+                    L.append("wt server %s %s" % (cfg, " ".join(head + ["conn.WT", "conn.sid"] + ops)))
+                # (b) bidi (and uni) streams in front of conn.WT
+                hdr = self.wt_header(rng, True, sess)
+                ev = ["o%d" % b] + self.cuts(b, hdr + pay, len(hdr), rng) + rng.choice([["f%d" % b], []])
+                j = rng.randrange(1, len(ev) + 1)
+                ops = head + ev[:j] + ["conn.WT", "conn.sid"] + ev[j:]
+                ops += ["conn.ab", "f%d" % b, "w%d.%s" % (b, self.read_op(rng, 8))]
+                L.append("wt server %s %s" % (cfg, " ".join(ops)))
+                # (c) return direction; big session ids on opened streams; stream credit
+                for _ in range(2):
+                    credit = rng.random() < 0.5
+                    c2 = cfg + (",uc=%d,bc=%d" % (3 + rng.choice([0, 1]), rng.choice([0, 1])) if credit else "")
+                    ops = head + ["conn.WT", "conn.sid"]
+                    ucr, bcr = (int(c2.split("uc=")[1].split(",")[0]) - 3, int(c2.split("bc=")[1])) if credit else (99, 99)
+                    nb, nu = 1, 15
+                    threads = []
+                    for _ in range(rng.randrange(1, 4)):
+                        bidi = rng.random() < 0.6
+                        arg = rng.choice(["", ":%d" % rng.choice(OPEN_IDS), ":%d" % rng.choice(BIG_IDS)])
+                        ops.append(("conn.ob" if bidi else "conn.ou") + arg)
+                        left = bcr if bidi else ucr
+                        if left == 0:
+                            if rng.random() < 0.1:
+                                break
+                            ops.append("gb1" if bidi else "gu1")
+                            left = 1
+                        if bidi:
+                            bcr = left - 1
+                            sid, nb = nb, nb + 4
+                            threads.append(self.returning(rng, sid))
+                        else:
+                            ucr = left - 1
+                            sid, nu = nu, nu + 4
+                        threads.append(["w%d.wr:%s" % (sid, hx([rng.getrandbits(8) for _ in range(rng.choice([1, 3]))]))])
+                    else:
+                        rest = []
+                        for t in threads:
+                            rest = self.merge(rng, rest, t)
+                        ops += rest
+                    L.append("wt server %s %s" % (c2, " ".join(ops)))
+                # (d) a request through accept_bi, then a WebTransport stream
+                g = [int(GET[i:i + 2], 16) for i in range(0, len(GET), 2)]
+                ev = ["o%d" % b] + self.cuts(b, g, rng.choice([1, 2, 5]), rng) + ["f%d" % b]
+                j = rng.randrange(1, len(ev) + 1)
+                ops = head + ["conn.WT", "conn.sid"] + ev[:j] + ["conn.ab"] + ev[j:]
+                if rng.random() < 0.5:
+                    ops += ["q%d.sr:200" % b, "q%d.fi" % b]
+                ops += ["o%d" % (b + 4), "s%d:%s" % (b + 4, hx(self.wt_header(rng, True, sess) + pay)), "f%d" % (b + 4), "conn.ab",
+                        "w%d.ra" % (b + 4)]
+                L.append("wt server %s %s" % (cfg, " ".join(ops)))
+        return L
 
     def datagram_ops(self, rng, connect):
         """(ops, malformed): datagrams in both directions over the simulated transport"""
@@ -708,17 +902,20 @@ class C19(Prop):
     def one_case_io(self, rng, dg_focus=False):
         wt = rng.random() < 0.92
         wc = rng.choice([0, 1, 2, 3, 5]) if rng.random() < 0.3 else None
-        cfg = "g0,wt=%d,ec=1,dg=1,seed=%d%s" % (1 if wt else 0, rng.randrange(0, 1000), "" if wc is None else ",wc=%d" % wc)
-        connect = rng.choice([0, 4, 8, 12, 60, 64, 256, 16380, 16384, 65536, 2**30, 2**30 + 4])
+        # stream credit: the three setup streams take theirs, `open_uni` / `open_bi` wait for `gu` / `gb`
+        sc = None if (dg_focus or rng.random() >= 0.15) else [rng.choice([0, 0, 1, 2]), rng.choice([0, 0, 1, 2])]
+        cfg = "g0,wt=%d,%s,seed=%d%s%s" % (1 if wt else 0, flags(rng), rng.randrange(0, 1000), "" if wc is None else ",wc=%d" % wc,
+                                          "" if sc is None else ",uc=%d,bc=%d" % (3 + sc[0], sc[1]))
+        connect = rng.choice([0, 4, 8, 12, 60, 64, 256, 16380, 16384, 65536, 2**30, 2**30 + 4] + BIG_IDS)
         lim = wc is not None
         ops = []
         if lim:
             ops += ["cw3:%d" % U, "cw7:%d" % U, "cw11:%d" % U]
         ops += ["o2", "s2:" + PEER_SETTINGS]
-        if rng.random() < 0.3 and connect >= 8:
+        if rng.random() < 0.3 and connect >= 4:
             ops += ["o0"] + (["cw0:%d" % U] if lim else []) + ["s0:" + GET, "f0", "conn.A", "q0.res", "q0.sr:200", "q0.fi"]
         ops += ["o%d" % connect] + (["cw%d:%d" % (connect, U)] if lim else []) + ["s%d:%s" % (connect, CONNECT), "conn.WT", "conn.sid"]
-        used_b, used_u, nb, nu = connect + 4, 6, 1, 15
+        used_b, used_u, nb, nu = first_bidi(connect), 6, 1, 15
         threads = []
 
         def advance(p):
@@ -747,8 +944,19 @@ class C19(Prop):
                     nb += 4
                 else:
                     nu += 4
-                sess = connect if rng.random() < 0.75 else rng.choice([0, 4, 64, 2**14, 2**30])
+                sess = connect if rng.random() < 0.7 else rng.choice(OPEN_IDS)
                 ops.append(("conn.ob" if bidi else "conn.ou") + ("" if sess == connect and rng.random() < 0.8 else ":%d" % sess))
+                if sc is not None:
+                    if sc[1 if bidi else 0] == 0:
+                        # no stream credit: the open waits until the peer grants some (or for ever)
+                        advance(0.2)
+                        if rng.random() < 0.08:
+                            stop = True
+                            break
+                        g = rng.choice([1, 1, 2])
+                        ops.append("%s%d" % ("gb" if bidi else "gu", g))
+                        sc[1 if bidi else 0] += g
+                    sc[1 if bidi else 0] -= 1
                 if lim:
                     hlen = 2 + (1 if sess < 64 else 2 if sess < 2**14 else 4 if sess < 2**30 else 8)
                     credit = wc
@@ -768,6 +976,9 @@ class C19(Prop):
                     if bidi and rng.random() < 0.15:
                         w.append("w%d.ss:%d" % (sid, rng.choice([1, 77])))
                     threads.append(w)
+                if bidi and rng.random() < 0.6:
+                    # the RETURN direction of a stream the server opened: no header there, every byte is payload
+                    threads.append(self.returning(rng, sid))
             elif k < 0.85:
                 bidi = rng.random() < 0.5
                 if bidi:
@@ -810,6 +1021,7 @@ class C19(Prop):
         L = [self.one_case_basic(rng) for _ in range(6000 if big else 1200)]
         L += [self.one_case_buffered(rng) for _ in range(40000 if big else 8000)]
         L += self.trunc_cases(rng, 3 if big else 1)
+        L += self.class_cases(rng, 40 if big else 12)
         L += [self.one_case_io(rng) for _ in range(200000 if big else 30000)]
         L += [self.one_case_io(rng, dg_focus=True) for _ in range(20000 if big else 4000)]
         L += [self.one_case_dg(rng) for _ in range(10000 if big else 2000)]
@@ -825,8 +1037,27 @@ class C19(Prop):
             m = re.match(r"^s(\d+):" + CONNECT + "$", o)
             if m:
                 keep |= {o, "o" + m.group(1)}
+        # bytes of a peer stream are never taken out of the middle (what is left would be another stream: the shrinker
+        # once walked from a lost buffered stream into `o6 s6:00a7` = a second control stream): a stream goes as a
+        # whole (with the ops of its task), or loses its LAST event
+        def sid_of(o):
+            m = re.match(r"^[osfr](\d+)(:|$)", o)
+            return int(m.group(1)) if m else None
+        sids = []
+        for o in ops:
+            k = sid_of(o)
+            if k is not None and k != 2 and o not in keep and k not in sids:
+                sids.append(k)
+        for k in sids:
+            mine = [i for i, o in enumerate(ops) if sid_of(o) == k or re.match(r"^w%ds?\." % k, o)]
+            if any(ops[i] in keep for i in mine):
+                continue
+            out.append(" ".join(w[:3] + [o for i, o in enumerate(ops) if i not in mine]))
+            evs = [i for i in mine if sid_of(ops[i]) == k and not ops[i].startswith("o")]
+            if evs:
+                out.append(" ".join(w[:3] + ops[:evs[-1]] + ops[evs[-1] + 1:]))
         for i in range(len(ops)):
-            if ops[i] in keep or ops[i].startswith("s2:"):
+            if ops[i] in keep or ops[i].startswith("s2:") or sid_of(ops[i]) is not None:
                 continue
             out.append(" ".join(w[:3] + ops[:i] + ops[i + 1:]))
         return out
